@@ -307,6 +307,8 @@ class Canon:
         return self._as_rat(c)
 
     def equal(self, a: T, b: T) -> bool:
+        if a is None or b is None:  # an absent argument / keyword equals nothing
+            return False
         ca, cb = self.canon(a), self.canon(b)
         if ca is cb:
             return True
